@@ -105,5 +105,20 @@ v('c08-icon-for-name', 'C08', 'fire', B, "        case tlv_friendlyName:\n      
 v('c08-stale-seq', 'C08', 'fire', B, "    st->mapper_seq = lltd_ntohs(lltdHeader->seqNumber);\n    set_active_mapper(st, &lltdHeader->realSource, &lltdHeader->frameHeader.source);\n\n    qry_large_tlv_t", "    set_active_mapper(st, &lltdHeader->realSource, &lltdHeader->frameHeader.source);\n\n    qry_large_tlv_t", 'R08.5')
 v('c08-benign-ternary', 'C08', 'silent', B, "    } else if (dataSize > dataOffset) {\n        // Final chunk\n        bytesToWrite = dataSize - dataOffset;\n        header->length = bytesToWrite;\n    } else {\n        // Offset beyond data - empty response\n        header->length = 0;\n    }", "    } else {\n        bytesToWrite = (dataSize > dataOffset) ? (uint16_t)(dataSize - dataOffset) : 0;\n        header->length = bytesToWrite;\n    }")
 
+# ---- C07
+v('c07-no-filter', 'C07', 'fire', B, "    bool forUs = compareEthernetAddress(&header->realDestination, &our_mac);\n    if (!forUs) {\n        return;\n    }\n    if (st->see_list_count", "    if (st->see_list_count", 'R07.a')
+v('c07-dedupe-src-only', 'C07', 'fire', B, "        if (compareEthernetAddress(&probe->sourceAddr, &cur->sourceAddr) &&\n            compareEthernetAddress(&probe->realSourceAddr, &cur->realSourceAddr)) {", "        if (compareEthernetAddress(&probe->sourceAddr, &cur->sourceAddr)) {", 'R07.b')
+v('c07-no-clear-after-query', 'C07', 'fire', B, "    } else {\n        lltd_state_clear_seen_probes(st);\n    }\n}", "    }\n}", 'R07.f')
+v('c07-more-bit-dropped', 'C07', 'fire', B, "    respH->numDescs = lltd_htons(more ? (uint16_t)(num_descs | 0x8000) : num_descs);", "    respH->numDescs = lltd_htons(num_descs);", 'R07.e')
+v('c07-clear-all-when-more', 'C07', 'fire', B, "    if (more) {\n        lltd_state_drop_seen_probes(st, num_descs);\n    } else {", "    if (0) {\n        lltd_state_drop_seen_probes(st, num_descs);\n    } else {", 'R07.e')
+v('c07-stale-seq', 'C07', 'fire', B, "    st->mapper_seq = lltd_ntohs(inHeader->seqNumber);\n    st->mapper_real = inHeader->realSource;", "    st->mapper_real = inHeader->realSource;", 'R07.d')
+v('c07-always-unicast', 'C07', 'fire', B, "    if (!compareEthernetAddress(&inHeader->realSource, &inHeader->frameHeader.source)) {\n        destAddr = &EthernetBroadcast;\n    } else {\n        destAddr = &inHeader->realSource;\n    }\n\n    ethernet_address_t our_mac = {{0, 0, 0, 0, 0, 0}};\n    (void)lltd_port_get_mac_address(iface_ctx, &our_mac);\n\n    size_t offset = setLltdHeader(buffer,", "    destAddr = &inHeader->realSource;\n\n    ethernet_address_t our_mac = {{0, 0, 0, 0, 0, 0}};\n    (void)lltd_port_get_mac_address(iface_ctx, &our_mac);\n\n    size_t offset = setLltdHeader(buffer,", 'R07.d')
+v('c07-swap-wire-fields', 'C07', 'fire', B, "        wire.realSourceAddr = node->realSourceAddr;\n        wire.sourceAddr = node->sourceAddr;", "        wire.realSourceAddr = node->sourceAddr;\n        wire.sourceAddr = node->realSourceAddr;", 'R07.c')
+v('c07-record-eth-dst-as-src', 'C07', 'fire', B, "    probe->sourceAddr = header->frameHeader.source;\n    probe->destAddr = header->frameHeader.destination;", "    probe->sourceAddr = header->frameHeader.destination;\n    probe->destAddr = header->frameHeader.source;", 'R07')
+v('c07-cap-100', 'C07', 'fire', B, "#define LLTD_MAX_SEEN_PROBES 1024", "#define LLTD_MAX_SEEN_PROBES 100", 'R07.h')
+v('c07-no-count-increment', 'C07', 'fire', B, "    st->see_list = probe;\n    st->see_list_count++;", "    st->see_list = probe;", 'R07.g')
+v('c07-lose-tail', 'C07', 'fire', B, "    probe->nextProbe = st->see_list;\n    st->see_list = probe;", "    st->see_list = probe;", 'R07.f')
+v('c07-benign-type-via-local', 'C07', 'silent', B, "    probe->type = lltd_htons((header->opcode == opcode_probe) ? 1 : 0);", "    uint16_t kind = (header->opcode == opcode_probe) ? 1 : 0;\n    probe->type = lltd_htons(kind);")
+
 json.dump(V, open(os.path.join(HERE, 'variants.json'), 'w'), indent=1)
 print(len(V), 'variants')
